@@ -197,6 +197,28 @@ pub fn run(ctx: &Ctx, reject_mode: bool) -> Result<Evidence, String> {
         }
         corpus.push(render(&q, &mut sp));
     }
+    // (iii) notable characters at every kind of position (valid and invalid alike: the
+    // recognisers decide), and 3-/4-operand formulas in every context with blanks at every slot
+    corpus.extend(gen::notable_char_strings());
+    for t in gen::composition_queries() {
+        let ast = match analyze(&t).ast {
+            Some(a) => a,
+            None => return Err(format!("composition query does not parse: {}", t)),
+        };
+        corpus.push(t.clone());
+        let mk = |f: &dyn Fn(&mut Spelling)| {
+            let mut s = Spelling::canonical();
+            f(&mut s);
+            s
+        };
+        corpus.push(render(&ast, &mut mk(&|s| s.blanks = Blanks::All(" ".into()))));
+        corpus.push(render(&ast, &mut mk(&|s| s.blanks = Blanks::All("\r\n\t ".into()))));
+        corpus.push(render(&ast, &mut mk(&|s| { s.extra_parens = 1; s.blanks = Blanks::All(" ".into()); })));
+        let slots = oracle::render::count_slots(&ast, &Spelling::canonical());
+        for slot in 0..slots.min(ctx.tier.pick(80, 400)) {
+            corpus.push(render(&ast, &mut mk(&|s| s.blanks = Blanks::Only { slot, text: if slot % 3 == 0 { "\n".into() } else { " ".into() } })));
+        }
+    }
     let n_base = corpus.len();
     // (C07 ii) single-edit mutants of the corpus
     let per = ctx.tier.pick(6, 30);
@@ -234,6 +256,8 @@ pub fn run(ctx: &Ctx, reject_mode: bool) -> Result<Evidence, String> {
             }
         }
     }
+    // long valid queries of multi-byte characters at every byte alignment
+    deep.extend(gen::long_multibyte_queries());
     corpus.extend(deep);
     let n_corpus = corpus.len();
     let probe_doc = Doc::from_value(serde_json::json!({"a": [1, {"b": 2}], "b": "x"}));
@@ -263,8 +287,14 @@ pub fn run(ctx: &Ctx, reject_mode: bool) -> Result<Evidence, String> {
         let accepted = match libapi::accepts(&s) {
             Some(a) => a,
             None => {
-                // a panic is C08's finding; here it is neither accept nor reject
-                ctx.add_inconclusive("parser panicked (reported by C08)", 1);
+                // a panic is C08's finding in general; for a valid query it also means that the
+                // query was not accepted, which is this property; for an invalid string it is
+                // neither accept nor reject
+                if !reject_mode && matches!(p.class, Class::Valid) {
+                    ctx.violate(&format!("valid query not accepted: parse_json_path panicked on {:?}", s.chars().take(200).collect::<String>()), json!({"kind":"accept","string": s, "expected":"accept", "family": fam}));
+                } else {
+                    ctx.add_inconclusive("parser panicked (reported by C08)", 1);
+                }
                 return;
             }
         };
